@@ -149,7 +149,7 @@ def check_addr(case):
     ver = case.get('ver', 0)
     s = R.encode(hrp, ver, prog)
     if R.decode(hrp, s) is None:
-        return check_codec(case)
+        return check_codec(dict(case, ver=ver))          # e.g. longer than 90 characters with a long prefix
     e = libx.call('encode', SA.encode, hrp, ver, prog)[1]
     if e != s:
         raise Violation('encode/string', 'encode(%r, %d, %s) = %r expected %r' % (hrp, ver, prog.hex(), e, s))
@@ -211,7 +211,8 @@ def check_case(case):
 # ------------------------------------------------------------------ strategies / enumerations
 hrp_chars = ''.join(chr(c) for c in range(33, 127) if not chr(c).isupper())
 hrps = st.one_of(st.sampled_from(['bc', 'tb', 'bcrt', 'bc', 'tb', 'a', '1', 'a1b', 'test1', 'ln1bc', '11', '?']),
-                 st.text(alphabet=hrp_chars, min_size=1, max_size=20))
+                 st.text(alphabet=hrp_chars, min_size=1, max_size=20),
+                 st.integers(28, 54).flatmap(lambda k: st.text(alphabet=hrp_chars, min_size=k, max_size=k)))
 
 
 def t_codec_grid(ctx):
@@ -234,7 +235,16 @@ def t_codec_grid(ctx):
                     except Violation as v:
                         ctx.violation(v, {'kind': 'codec', 'hrp': hrp, 'ver': ver, 'prog': prog.hex()})
     if ctx.shard == 0:
-        ctx.exhaustive.append('4 HRPs x versions 0..17 x program lengths 0..42 (codec); CBech32Data on the matching chains')
+        # the 90-character limit, reached with long prefixes: total length 88..92 for several program lengths
+        for ver, L in ((0, 20), (0, 32), (1, 40), (1, 2), (16, 21)):
+            nsym = 1 + (8 * L + 4) // 5 + 6
+            for total in (88, 89, 90, 91, 92):
+                n_h = total - 1 - nsym
+                if 1 <= n_h <= 84:
+                    for hrp in ('a' * n_h, ('x1' * n_h)[:n_h], ('~' * n_h)):
+                        ctx.run({'kind': 'codec', 'hrp': hrp, 'ver': ver, 'prog': bytes(range(L)).hex()})
+        ctx.exhaustive.append('4 HRPs x versions 0..17 x program lengths 0..42 (codec); CBech32Data on the matching chains; '
+                              'total lengths 88..92 via long prefixes')
 
 
 @st.composite
